@@ -25,6 +25,21 @@ STRUCTS = {
              ('radius', 'S', '_radius', None)],
 }
 
+STRUCTS['Poly2C'] = [
+    ('vertices', 'List V2', '_vertices', 'Point2D'),
+    ('min', 'Opt V2', '_min', 'Point2D'), ('max', 'Opt V2', '_max', 'Point2D'),
+    ('center', 'Opt V2', '_center', 'Point2D'),
+    ('segments', 'Opt X', '_segments', None),
+    ('inside_angles', 'Opt X', '_inside_angles', None),
+    ('outside_angles', 'Opt X', '_outside_angles', None),
+    ('perimeter', 'Opt S', '_perimeter', None), ('area', 'Opt S', '_area', None),
+    ('is_clockwise', 'Opt B', '_is_clockwise', None),
+    ('is_convex', 'Opt B', '_is_convex', None),
+    ('is_self_intersecting', 'Opt B', '_is_self_intersecting', None),
+]
+# struct types that must list exactly the class's __slots__ (a new slot breaks translation)
+SLOT_COMPLETE = {'Poly2C': 'Polygon2D'}
+
 # python classes that may stand for a struct when it comes back as a result
 RESULT_CLASSES = {
     'V2': ('Vector2D', 'Point2D'),
@@ -37,6 +52,7 @@ RESULT_CLASSES = {
     'SphereS': ('Sphere',),
     'ConeS': ('Cone',),
     'CylS': ('Cylinder',),
+    'Poly2C': ('Polygon2D',),
 }
 
 
@@ -53,6 +69,8 @@ def lean_type(t):
         return 'Nat'
     if t == 'I':
         return 'Int'
+    if t == 'X':
+        return 'Opq'
     if isinstance(t, str):
         return '%s α' % t
     if t[0] == 'opt':
@@ -76,6 +94,12 @@ def make_input(index, term, mtype, pycls):
     if isinstance(mtype, str):
         ci = index.find_class(pycls)
         o = Obj(ci)
+        if mtype in SLOT_COMPLETE:
+            have = set(index.all_slots(ci))
+            want = set(sl for (_, _, sl, _) in STRUCTS[mtype])
+            if have != want:
+                raise Unsupported('__slots__ of %s changed: model has %s, class has %s' % (
+                    pycls, sorted(want - have), sorted(have - want)))
         for s in index.all_slots(ci):
             o.slots[s] = None
         for (f, ft, slot, fcls) in STRUCTS[mtype]:
